@@ -580,3 +580,138 @@ def c20(ctx):
     ctx.exhaustive = False
     ctx.assumptions += ["copies of secrets in registers or compiler spills outside the wiped buffer are not part of the property",
                         "SecureZeroMemory / memset_s configurations do not exist on this host and are not run"]
+
+
+# ---------------------------------------------------------------------------------- C19
+
+def parse_tsan_logs(ctx, prefix, tag):
+    """Counts ThreadSanitizer report blocks in log files, dedupes by (kind, top library frames)."""
+    import glob, re
+    reports = {}
+    nblocks = 0
+    for path in glob.glob(prefix + "*"):
+        txt = open(path, errors="replace").read()
+        for block in txt.split("==================")[1:]:
+            if "WARNING: ThreadSanitizer" not in block:
+                continue
+            nblocks += 1
+            kind = re.search(r"WARNING: ThreadSanitizer: ([^\n(]+)", block).group(1).strip().replace(" ", "-")
+            frames = re.findall(r"#\d+ (\w+) [^\n]*?([\w.-]+\.[ch]):\d+", block)
+            libframes = [f for f, src in frames if f.startswith("tinyjambu") or src.startswith("tinyjambu")]
+            stacks = sorted(set(libframes[:2])) if libframes else ["harness-only"]
+            key = "tsan:%s:%s" % (kind, "+".join(stacks))
+            reports.setdefault(key, block[:3000])
+    ctx.count("tsan_report_blocks", nblocks)
+    for key, block in reports.items():
+        if "harness-only" in key:
+            ctx.inconclusive.append("ThreadSanitizer report without a library frame (harness defect?) in %s: %s" % (tag, block[:600]))
+        else:
+            ctx.violation(key, {"build": tag, "report": block})
+
+
+@check("C19", "exploration", floor=5000)
+def c19(ctx):
+    import subprocess, re
+    load_replay(ctx)
+    N, T, reps = ctx.q((1400, 16, 2), (2800, 16, 6))
+    p = ctx.prod()
+    # ---- monitor 1: TSan differential stress
+    tsan_builds = [("tsan-gcc", "gcc"), ("tsan-clang", "clang")] if (ctx.thorough or True) else []
+    jobs = []
+    for tag, cc in tsan_builds:
+        fl = ["-O1"] + core.SAN_TSAN
+        lib = ctx.lib(tag, cc, fl)
+        exe = ctx.harness("h_conc-" + tag, "h_conc.c", lib, cc=cc, flags=fl, with_model=False)
+        for tt in ([T] if not ctx.thorough else [2, 4, 16, 64]):
+            logp = os.path.join(ctx.scratch, "tsanlog-%s-%d" % (tag, tt))
+            for j in batch_jobs(ctx, exe, tag, ["--mode", "stress", "--p1", N, "--p2", tt, "--p3", reps], 1):
+                j["env"] = {"TSAN_OPTIONS": "halt_on_error=0:exitcode=0:log_path=%s:second_deadlock_stack=1" % logp}
+                j["logp"] = logp
+                jobs.append(j)
+    # uninstrumented production object: more operations, same differential oracle
+    exe = ctx.harness("h_conc-prod", "h_conc.c", {"static": p["static"]}, cc="gcc", with_model=False)
+    for tt in ([16, 64] if not ctx.thorough else [2, 4, 16, 64]):
+        jobs += batch_jobs(ctx, exe, "prod-cmake-Release", ["--mode", "stress", "--p1", N * 2, "--p2", tt, "--p3", reps * 2], 1)
+    ctx.run_jobs(jobs, timeout=2400, workers=3)
+    for j in jobs:
+        if j.get("logp"):
+            parse_tsan_logs(ctx, j["logp"], j["tag"])
+    if not ctx.replay:
+        ov, tot = ctx.stats.get("operations_that_overlapped_another", 0), ctx.stats.get("concurrent_operations_compared", 0)
+        if tot == 0 or ov < tot // 10:
+            ctx.inconclusive.append("too few operations overlapped in time (%d of %d): schedule coverage insufficient" % (ov, tot))
+        if ctx.maxes.get("distinct_overlapping_type_pairs", 0) < 60:
+            ctx.inconclusive.append("only %d distinct overlapping operation-type pairs observed" % ctx.maxes.get("distinct_overlapping_type_pairs", 0))
+
+    # ---- monitor 2: writable-segment snapshot on the production shared library
+    exe_so = ctx.harness("h_conc-so", "h_conc.c", None, cc="gcc", with_model=False,
+                         ldflags=["-L" + p["sodir"], "-ltinyjambu", "-Wl,-rpath," + p["sodir"]])
+    js = batch_jobs(ctx, exe_so, "prod-shared-snapshot", ["--mode", "snapshot", "--p1", N], 1)
+    for j in js:
+        j["env"] = {"LD_BIND_NOW": "1"}
+    # ---- monitor 3: allocator interposition on the production static library
+    exe_h = ctx.harness("h_conc-heap", "h_conc.c", {"static": p["static"]}, cc="gcc", with_model=False, defs=["VERIF_HEAPMON"])
+    js += batch_jobs(ctx, exe_h, "prod-heapmon", ["--mode", "heap", "--p1", N], 1)
+    ctx.run_jobs(js, timeout=900)
+    if not ctx.replay and ctx.stats.get("allocator_calls_seen_outside_library", 0) < 1:
+        ctx.inconclusive.append("allocator interposer saw no allocator call at all (control failed)")
+
+    # ---- monitor 4: history independence across processes and orders
+    if not ctx.replay:
+        files = []
+        js = []
+        for order in (0, 1, 2, 3):
+            path = os.path.join(ctx.scratch, "results-%d.bin" % order)
+            files.append(path)
+            js.append({"cmd": [exe, "--seed", str(ctx.seed), "--mode", "serial", "--p1", str(N), "--p3", str(order)], "tag": "prod-serial-order%d" % order,
+                       "env": {"VERIF_RESULTS": path}})
+        singles = list(range(0, N, max(1, N // 40)))
+        for op in singles:
+            path = os.path.join(ctx.scratch, "single-%d.bin" % op)
+            js.append({"cmd": [exe, "--seed", str(ctx.seed), "--mode", "serial", "--p1", str(N), "--p3", "0", "--only", str(op)], "tag": "prod-fresh-process-op%d" % op,
+                       "env": {"VERIF_RESULTS": path}})
+        ctx.run_jobs(js, timeout=600)
+        try:
+            base = open(files[0], "rb").read()
+            for order, f in enumerate(files[1:], 1):
+                other = open(f, "rb").read()
+                ctx.count("history_orders_compared", 1)
+                if other != base:
+                    bad = next(i for i in range(N) if other[32 * i:32 * i + 32] != base[32 * i:32 * i + 32])
+                    ctx.violation("result-depends-on-earlier-calls", {"build": "prod-serial", "detail": "operation %d gives a different result when the table is executed in order #%d" % (bad, order)})
+            for op in singles:
+                one = open(os.path.join(ctx.scratch, "single-%d.bin" % op), "rb").read()
+                ctx.count("fresh_process_comparisons", 1)
+                if one[32 * op:32 * op + 32] != base[32 * op:32 * op + 32]:
+                    ctx.violation("result-depends-on-earlier-calls", {"build": "prod-serial", "detail": "operation %d alone in a fresh process differs from its result after %d unrelated calls" % (op, op)})
+        except FileNotFoundError as e:
+            ctx.inconclusive.append("serial result file missing: %s" % e)
+
+    # ---- supplementary census (static, same verdict channel)
+    if not ctx.replay:
+        out = ctx.sh(["nm", "-A", p["static"]]).stdout.decode()
+        dsyms, alloc = [], []
+        for l in out.splitlines():
+            parts = l.split()
+            if len(parts) >= 3 and parts[-2] in ("D", "d", "B", "b", "C"):
+                dsyms.append(l)
+            if len(parts) >= 2 and parts[-2] == "U" and parts[-1] in ("malloc", "calloc", "realloc", "free", "posix_memalign", "mmap", "sbrk", "aligned_alloc", "strdup"):
+                alloc.append(l)
+        ctx.extra_cov["census"] = {"writable_data_symbols": dsyms[:10], "allocator_imports": alloc[:10],
+                                   "undefined_imports": sorted(set(l.split()[-1] for l in out.splitlines() if len(l.split()) >= 2 and l.split()[-2] == "U" and not l.split()[-1].startswith("tinyjambu")))}
+        for l in dsyms:
+            ctx.violation("census-writable-static-data:" + l.split()[-1], {"build": "prod-static-nm", "detail": "object file defines writable static/global data: " + l})
+        for l in alloc:
+            ctx.violation("census-allocator-import:" + l.split()[-1], {"build": "prod-static-nm", "detail": "object file imports an allocator: " + l})
+    ctx.rule = ("table of N operations over 14 operation types (6 AEAD/SIV encrypt+decrypt+reject, hash, HMAC, HKDF one-shot and incremental, PBKDF2, PRNG with "
+                "callback, PRNG with the system source (OS call interposed by a per-thread deterministic stub), clean+free), inputs from (seed, op index), all on "
+                "private stack objects. Monitor 1: serial pass, then T threads each run a random permutation of the whole table (barrier start, yield/nanosleep "
+                "jitter between calls); every result compared with serial; gcc and clang -fsanitize=thread builds (reports read from logs, deduplicated, library "
+                "frame required) and the uninstrumented production object. evaluations = concurrent operation executions compared; distinct_nontrivial = distinct "
+                "(type, type) pairs observed in flight simultaneously + snapshot/heap operation types. Monitor 2: hash of libtinyjambu.so's writable mappings "
+                "before/after every operation (LD_BIND_NOW=1). Monitor 3: malloc/calloc/realloc/free/posix_memalign/mmap interposed, any call inside a library call "
+                "is a violation. Monitor 4: the table in 4 different orders in separate processes + 40 operations alone in fresh processes give identical results. "
+                "Census: nm shows no writable data symbols and no allocator imports.")
+    ctx.exhaustive = False
+    ctx.assumptions += ["ThreadSanitizer only sees interleavings that happened; the snapshot, census and heap monitors do not depend on scheduling",
+                        "concurrent use of the same object is outside the property"]
